@@ -326,6 +326,17 @@ func (ex *Exec) equal(t types.Type, x, y Value, fr *frame) Value {
 			return true
 		}
 		if u.Info()&types.IsString != 0 {
+			ea, aEnc := x.(*EncStr)
+			eb, bEnc := y.(*EncStr)
+			if aEnc || bEnc {
+				if !aEnc || !bEnc {
+					return false // an encoding never equals a plain string of a harness vocabulary
+				}
+				if ea == eb {
+					return true
+				}
+				return ex.jsonEqual(ea.v, eb.v, fr)
+			}
 			return strEq(x, y)
 		}
 		if isSym(x) || isSym(y) {
@@ -548,7 +559,7 @@ func (ex *Exec) conv(dst, src types.Type, x Value) Value {
 					return v.Arr.StrSrc
 				}
 				if v.Arr != nil && v.Arr.Enc != nil {
-					return "<json>" // the text of an encoding is never the subject
+					return &EncStr{v: v.Arr.Enc.v} // compared structurally, never inspected
 				}
 				if sl, ok := us.(*types.Slice); ok {
 					if basicOf(sl.Elem()).Kind() == types.Byte {
